@@ -86,15 +86,27 @@ def make_flow(ctx, count):
         s = H.Scenario("f%d" % i)
         s.iface(0, **H.iface_kw(cfg)).glob(**G.global_kw(G.rand_global(rng, icon_size=0)))
         s.add("OPT sleep=0")
-        now = rng.choice([1, 1000, 123456])
+        now = rng.choice([1, 1000, 123456, (1 << 32) - 30000, 1 << 40])
         s.add("NOW %d" % now)
         ops = []
+        # half of the histories run beside a second interface of the same process (own automata, own sessions) that the
+        # daemon's loop ticks first in every pass; its inputs are not judged
+        shadow = i % 2 == 1
+        if shadow:
+            cfg1 = G.rand_cfg(rng, mtu=1500)
+            net1 = G.Net(rng, cfg1["mac"])
+            s.iface(1, **H.iface_kw(cfg1))
+            s.frame(1, G.f_discover(rng, net1, m=0, ack=False, nstations=1, tos=0), op="W")
         for _ in range(rng.randint(30, 90)):
             r = rng.random()
             if r < 0.4:
-                n = rng.choice([1, 3, 10, 30, 60])
-                s.add("KR 0 %d 100" % n)
-                ops.append(("KR", n, 100))
+                n = rng.choice([1, 3, 10, 30, 60, 320, 650])
+                if shadow:
+                    s.add("KR 0 %d 100 1" % n)
+                    ops.append(("KR", n, 100, 1))
+                else:
+                    s.add("KR 0 %d 100" % n)
+                    ops.append(("KR", n, 100))
             elif r < 0.5:
                 ms = rng.choice([1000, 5000, 29000, 30000, 31000, 59000, 60000, 61000, 120000])
                 s.add("ADV %d" % ms)
@@ -109,15 +121,17 @@ def make_flow(ctx, count):
                     fr = G.f_hello(rng, net)
                 elif k < 0.75:
                     fr = G.f_reset(rng, net, m=m)
-                elif k < 0.85:
+                elif k < 0.82:
                     fr = G.f_probe(rng, net)
-                elif k < 0.92:
+                elif k < 0.88:
                     fr = G.f_query(rng, net, m)
+                elif k < 0.95:
+                    fr = W.simple(W.OP_CHARGE, net.own, net.mappers[m])
                 else:
                     fr = G.f_misc(rng, net)
                 s.frame(0, fr, op="W")
                 ops.append(("W", fr[15], fr[17]))
-        s.meta = dict(ops=ops, kind="flow", now=now)
+        s.meta = dict(ops=ops, kind="flow", now=now, shadow=shadow)
         scns.append(s)
     return scns
 
@@ -134,6 +148,7 @@ def monitor(scn, sobj, rep, sf, ck):
     it = iter(scn.inputs)
     last_cb = None
     callbacks = 0
+    shadow_ticks = 0
     seen = set()
     enum_state = 0
     tcount = 0
@@ -144,6 +159,10 @@ def monitor(scn, sobj, rep, sf, ck):
     def bad(key, msg, inp):
         rep.violation("C12:" + key, "scenario %s input %d (%s): %s" % (scn.sid, inp.n, inp.op, msg), replay=sobj.text())
 
+    clock = sobj.meta["now"]
+    last_frame = None           # daemon-flow histories: when the last frame arrived on this interface
+    flow = sobj.meta["kind"] == "flow"
+
     def handle(inp, op):
         nonlocal last_cb, callbacks, enum_state, tcount, inact, band_hello, checked
         hs = [e for e in inp.ev if e[0] == "H"]
@@ -151,6 +170,15 @@ def monitor(scn, sobj, rep, sf, ck):
             _, ifc, now, valid, incomplete, in_tick = h
             callbacks += 1
             checked += 1
+            if flow and last_frame is not None and inp.op == "K":
+                if now != clock:
+                    rep.inconclusive.append("scenario %s input %d: the monitor's clock (%d) and the port's (%d) disagree" % (scn.sid, inp.n, clock, now))
+                elif now - last_frame >= 31000:
+                    # 30 s without traffic drop the sessions; the tick that would send this Hello checks that first
+                    bad("hello-after-30s-without-traffic", "send_hello at t=%d, last frame at t=%d (%d ms of silence), table reports %d "
+                        "live sessions" % (now, last_frame, now - last_frame, valid), inp)
+                elif now - last_frame >= 20000:
+                    seen.add("hello-late-in-the-silence")
             if not in_tick:
                 bad("hello-outside-tick", "send_hello invoked outside automata_tick at t=%d" % now, inp)
             if incomplete < 1:
@@ -189,15 +217,31 @@ def monitor(scn, sobj, rep, sf, ck):
         if m is not None:
             inact = int(m[4])
 
+    dead = False
     for op in ops:
+        if dead:
+            break
         if op[0] == "ADV":
+            clock += op[1]
             continue
         reps = op[1] if op[0] == "KR" else 1
         for _ in range(reps):
+            if op[0] == "KR":
+                clock += op[2]
             inp = next(it, None)
+            while inp is not None and inp.iface != 0 and inp.out is not None:
+                clock += inp.out[3]          # the other interface (shared clock); not judged
+                if inp.op == "K":
+                    shadow_ticks += 1
+                inp = next(it, None)
             if inp is None or inp.out is None:
+                dead = True
                 break
+            if op[0] == "W":
+                last_frame = clock
             handle(inp, op)
+            clock += inp.out[3]
+    rep.count("ticks_beside_a_second_interface", shadow_ticks)
     rep.evaluations += checked
     rep.count("callbacks", callbacks)
     rep.count("callbacks_" + sobj.meta["kind"], callbacks)
@@ -226,6 +270,7 @@ def run(ctx):
     c = rep.counters
     rep.need("callbacks", c.get("callbacks", 0), 1000)
     rep.need("callbacks_flow", c.get("callbacks_flow", 0), 200)
-    for name in ("suppressed-by-min-interval", "emptied-by-30s-inactivity", "emptied-by-60s-expiry", "pausing>wait",
+    rep.need("ticks_beside_a_second_interface", c.get("ticks_beside_a_second_interface", 0), 1000)
+    for name in ("hello-late-in-the-silence", "suppressed-by-min-interval", "emptied-by-30s-inactivity", "emptied-by-60s-expiry", "pausing>wait",
                  "wait>quiescent", "paced-at-min-interval"):
         rep.need(name, c.get("reach:" + name, 0), 10)
